@@ -12,6 +12,7 @@ import (
 	"time"
 
 	"github.com/mdlayher/corerad/internal/config"
+	"github.com/mdlayher/corerad/internal/netstate"
 	"github.com/mdlayher/corerad/internal/system"
 	"github.com/mdlayher/corerad/verifrt/ev"
 	"github.com/mdlayher/corerad/verifrt/ref"
@@ -50,14 +51,32 @@ func c01SendRun(t *testing.T, c c01SendCase) (x *vsched.Exec, out [][2]string) {
 		Horizon: 5 * time.Minute,
 		Setup: func(x *vsched.Exec) {
 			system.VerifSetAddresser(c17Addresser{})
-			a = newAdvWorld(cfg.Interfaces[0], c.Fwd, false)
+			a = newAdvWorld(cfg.Interfaces[0], c.Fwd, true)
 			x.Spawn("advertiser", a.run)
 			x.Spawn("driver", func() {
 				defer a.done()
 				defer system.VerifSetAddresser(nil)
 				vsched.Sleep(3500 * time.Millisecond)
 				a.inject(rsFrom("fe80::5", true))
-				vsched.Sleep(5 * time.Second)
+				vsched.Sleep(500 * time.Millisecond)
+				// Another router's RA (equal to ours, received through the wire) makes the
+				// advertiser build its own RA for the consistency check.
+				{
+					st := ref.State{Name: "eth0", MAC: a.macOf(0).String(), Forwarding: true, Routes: []string{"2001:db8:f000::/48"}}
+					st.Addrs, _ = c17Addresser{}.AddressesByIndex(1)
+					st.Clock = a.now()
+					if peer, ok := ref.RA(wantCfg.Interfaces[0], &st, c17Epoch); ok {
+						if wp, err := c12Wire(peer); err == nil {
+							a.inject(inMsg{m: wp, hop: 255, from: rsFrom("fe80::7", false).from})
+						}
+					}
+				}
+				vsched.Sleep(4500 * time.Millisecond)
+				// A link change: the interface is re-initialised (and has another MAC).
+				vsched.Send("harness:link-change", a.watchC, netstate.LinkDown)
+				vsched.Sleep(3500 * time.Millisecond)
+				a.inject(rsFrom("fe80::6", true))
+				vsched.Sleep(time.Second)
 				a.term.set(os.Interrupt)
 				a.cancel()
 				vsched.Sleep(time.Second)
@@ -74,16 +93,20 @@ func c01SendRun(t *testing.T, c c01SendCase) (x *vsched.Exec, out [][2]string) {
 	if len(ws) < 4 {
 		bad("C01:send:too-few", "only %d RAs were transmitted", len(ws))
 	}
-	rs := ref.State{Name: "eth0", MAC: a.mac.String(), Forwarding: c.Fwd, Routes: []string{"2001:db8:f000::/48"}}
+	rs := ref.State{Name: "eth0", Forwarding: c.Fwd, Routes: []string{"2001:db8:f000::/48"}}
 	rs.Addrs, _ = c17Addresser{}.AddressesByIndex(1)
 	kinds := map[string]bool{}
 	for i, w := range ws {
 		rs.Clock = w.T // the bubble's clock starts at the epoch
+		rs.MAC = a.macOf(w.Conn).String()
 		ifi := wantCfg.Interfaces[0]
 		kind := "periodic"
 		switch {
-		case i == 0:
+		case i == 0 || ws[i-1].Conn != w.Conn:
 			kind = "initial"
+			if i > 0 {
+				kind = "initial-after-reinit"
+			}
 		case !isAllNodes(w.Dst):
 			kind = "solicited"
 		case i == len(ws)-1:
@@ -100,7 +123,7 @@ func c01SendRun(t *testing.T, c c01SendCase) (x *vsched.Exec, out [][2]string) {
 			bad("C01:send:payload:"+kind, "%s RA #%d to %s at %s: %+v\nwant %+v", kind, i, w.Dst, w.T, w.RA, want)
 		}
 	}
-	for _, k := range []string{"initial", "periodic", "solicited", "final"} {
+	for _, k := range []string{"initial", "initial-after-reinit", "periodic", "solicited", "final"} {
 		if !kinds[k] {
 			bad("C01:send:missing-"+k, "no %s RA was transmitted", k)
 		}
